@@ -1,7 +1,25 @@
 //! vmc — the one binary behind `./check Cxx quick|thorough` and `./check Cxx --replay <file>`.
 
 mod common;
+mod c01;
+mod c02;
+mod c03;
+mod c04;
+mod c05;
+mod c06;
+mod c07;
+mod c08;
+mod c09;
+mod c10;
+mod c11;
+mod c12;
+mod c13;
+mod c14;
 mod c15;
+mod c16;
+mod c17;
+mod c18;
+mod c19;
 
 use mcx::{Ctx, Tier};
 
@@ -64,7 +82,25 @@ fn main() {
 
     // machinery failures (harness panics) must never look like a verdict: exit code 2
     let r = std::panic::catch_unwind(std::panic::AssertUnwindSafe(|| match prop.as_str() {
+        "C01" => c01::run(&ctx, replay_case.as_ref()),
+        "C02" => c02::run(&ctx, replay_case.as_ref()),
+        "C03" => c03::run(&ctx, replay_case.as_ref()),
+        "C04" => c04::run(&ctx, replay_case.as_ref()),
+        "C05" => c05::run(&ctx, replay_case.as_ref()),
+        "C06" => c06::run(&ctx, replay_case.as_ref()),
+        "C07" => c07::run(&ctx, replay_case.as_ref()),
+        "C08" => c08::run(&ctx, replay_case.as_ref()),
+        "C09" => c09::run(&ctx, replay_case.as_ref()),
+        "C10" => c10::run(&ctx, replay_case.as_ref()),
+        "C11" => c11::run(&ctx, replay_case.as_ref()),
+        "C12" => c12::run(&ctx, replay_case.as_ref()),
+        "C13" => c13::run(&ctx, replay_case.as_ref()),
+        "C14" => c14::run(&ctx, replay_case.as_ref()),
         "C15" => c15::run(&ctx, replay_case.as_ref()),
+        "C16" => c16::run(&ctx, replay_case.as_ref()),
+        "C17" => c17::run(&ctx, replay_case.as_ref()),
+        "C18" => c18::run(&ctx, replay_case.as_ref()),
+        "C19" => c19::run(&ctx, replay_case.as_ref()),
         _ => {
             eprintln!("no check registered for {prop}");
             2
